@@ -189,7 +189,7 @@ func genC10(r *sim.Rng, tier string, idx int) *GCase {
 		case 2:
 			// damage is only unambiguous where the format can detect it: .xz with a
 			// check (a .lzma stream carries no checksum)
-			if format == "xz" && f.Stream.Kind == "lib" {
+			if format == "xz" && (f.Stream.Kind == "lib" || f.Stream.Kind == "multi") {
 				f.Kind = "damaged"
 				f.Seed = r.Uint64()
 			} else {
